@@ -5,7 +5,7 @@ implementation and for modelrun_Engine, and canonicalisation of results.
 IR (nested tuples):
   ('tok', s) ('pat', regex) ('const', text) 'void' 'cut' 'eof' 'dot' 'empty'
   ('seq', [e..]) ('choice', [e..]) ('group', e) ('skipgroup', e) ('opt', e)
-  ('rep', plus, sep|None, omitsep, e) ('look', neg, e) ('skipto', e) ('call', name)
+  ('rep', plus, sep|None, omitsep, e) ('assoc', left, sep, e) ('look', neg, e) ('skipto', e) ('call', name)
   ('named', islist, name, e) ('over', islist, e)
 A grammar = {'rules': [(name, decorators, exp)], 'directives': {...}, 'keywords': [...]}
 """
@@ -33,7 +33,7 @@ def quote_pat(p: str) -> str:
     return '/' + p + '/'
 
 
-ATOMS = {'tok', 'pat', 'const', 'void', 'cut', 'eof', 'dot', 'empty', 'call', 'group', 'skipgroup', 'opt', 'rep', 'meta'}
+ATOMS = {'tok', 'pat', 'const', 'void', 'cut', 'eof', 'dot', 'empty', 'call', 'group', 'skipgroup', 'opt', 'rep', 'assoc', 'meta'}
 
 
 def kind(e):
@@ -85,6 +85,8 @@ def to_text(e, ctx='top') -> str:
         if sep is None:
             return body
         return to_text(sep, 'atom') + ('.' if omitsep else '%') + body
+    if k == 'assoc':        # sep<{e}+ (left) / sep>{e}+ (right)
+        return to_text(e[2], 'atom') + ('<' if e[1] else '>') + '{' + to_text(e[3], 'top') + '}+'
     if k == 'look':
         return ('!' if e[1] else '&') + to_text(e[2], 'term')
     if k == 'skipto':
@@ -184,6 +186,8 @@ def exp_sx(e, names: dict, tabs: Tables) -> str:
         _, plus, sep, omitsep, x = e
         s = 'none' if sep is None else f'(some {exp_sx(sep, names, tabs)})'
         return f'(rep {int(plus)} {s} {int(omitsep)} {exp_sx(x, names, tabs)})'
+    if k == 'assoc':
+        return f'(assoc {int(e[1])} (rep 1 (some {exp_sx(e[2], names, tabs)}) 0 {exp_sx(e[3], names, tabs)}))'
     if k == 'look':
         return f'(look {int(e[1])} {exp_sx(e[2], names, tabs)})'
     if k == 'named':
@@ -205,6 +209,9 @@ def walk(e):
         if e[2] is not None:
             yield from walk(e[2])
         yield from walk(e[4])
+    elif k == 'assoc':
+        yield from walk(e[2])
+        yield from walk(e[3])
     elif k == 'look':
         yield from walk(e[2])
     elif k == 'named':
